@@ -149,7 +149,13 @@ def make_task_class(index: int):
                 return TaskResult.suspend()
             if b == "jump":
                 j = spec.get("j", 1)
-                if j < 0 or ctx.get("_jump_count", 0) < j:
+                after = spec.get("after", 0)  # jump only from the (after+1)-th execution of this task on (e.g. after an operator restart)
+                if after:
+                    with _LOCK:
+                        done = sum(1 for e in LEDGER if e["stage"] == label and e["task"] == index) - 1
+                else:
+                    done = 0
+                if done >= after and (j < 0 or ctx.get("_jump_count", 0) < j):
                     return TaskResult.jump_to(spec["to"])
                 return TaskResult.success(outputs=_emit(spec, label, ctx))
             if b == "fail_continue":
